@@ -28,6 +28,7 @@ fn main() {
         "C10" => checks::c10::run(&mut rep),
         "C11" => checks::c11::run(&mut rep),
         "C12" => checks::c12::run(&mut rep),
+        "C13" => checks::c13::run(&mut rep),
         "C14" => checks::c14::run(&mut rep),
         "C15" => checks::c15::run(&mut rep),
         "C17" => checks::c17::run(&mut rep),
